@@ -15,6 +15,7 @@ package js_lexer
 
 import (
 	"fmt"
+	"math/big"
 	"strconv"
 	"strings"
 	"unicode/utf8"
@@ -1845,6 +1846,20 @@ func (lexer *Lexer) parseNumericLiteralOrDot() {
 		}
 
 		isBigIntegerLiteral := lexer.codePoint == 'n' && !hasDotOrExponent
+
+		// Adding the digits one at a time rounds at every step once the value no
+		// longer fits in 53 bits. Convert such a literal exactly and round once.
+		if lexer.Number >= 1<<53 && !isBigIntegerLiteral && !isInvalidLegacyOctalLiteral {
+			digits := strings.ReplaceAll(lexer.source.Contents[lexer.start:lexer.end], "_", "")
+			if lexer.IsLegacyOctalLiteral {
+				digits = digits[1:]
+			} else {
+				digits = digits[2:]
+			}
+			if exact, ok := new(big.Int).SetString(digits, int(base)); ok {
+				lexer.Number, _ = new(big.Float).SetInt(exact).Float64()
+			}
+		}
 
 		// Slow path: do we need to re-scan the input as text?
 		if isBigIntegerLiteral || isInvalidLegacyOctalLiteral {
